@@ -192,8 +192,66 @@ func genBuiltins(repo string) (string, error) {
 				}
 			}
 		}
+		// package-level functions with a single literal CheckArgCount on one of their parameters:
+		// name -> (index of that parameter, check)
+		type helperCheck struct {
+			param int
+			ck    *biCheck
+		}
+		helpers := map[string]helperCheck{}
+		for _, af := range parsed {
+			for _, d := range af.Decls {
+				fd, ok := d.(*ast.FuncDecl)
+				if !ok || fd.Recv != nil || fd.Body == nil || fd.Type.Params == nil {
+					continue
+				}
+				var pnames []string
+				for _, f := range fd.Type.Params.List {
+					for _, n := range f.Names {
+						pnames = append(pnames, n.Name)
+					}
+				}
+				ck := &biCheck{}
+				param := -1
+				ast.Inspect(fd.Body, func(n ast.Node) bool {
+					if _, ok := n.(*ast.FuncLit); ok {
+						return false
+					}
+					ce, ok := n.(*ast.CallExpr)
+					if !ok || !biIsSel(ce.Fun, "CheckArgCount") || len(ce.Args) != 6 {
+						return true
+					}
+					id, ok := ce.Args[3].(*ast.Ident)
+					if !ok {
+						ck.nonlit++
+						return true
+					}
+					at := -1
+					for i, pn := range pnames {
+						if pn == id.Name {
+							at = i
+						}
+					}
+					mn, ok1 := biInt(ce.Args[4])
+					mx, ok2 := biInt(ce.Args[5])
+					if at < 0 || !ok1 || !ok2 {
+						ck.nonlit++
+						return true
+					}
+					if ck.n == 0 {
+						ck.min, ck.max, param = mn, mx, at
+					}
+					ck.n++
+					return true
+				})
+				if ck.n == 1 && ck.nonlit == 0 {
+					helpers[fd.Name.Name] = helperCheck{param, ck}
+				}
+			}
+		}
 		// Call methods: receiver type -> checks
 		checks := map[string]*biCheck{}
+		via := map[string]string{} // receiver type -> helper whose check counts for the Call
 		for _, af := range parsed {
 			for _, d := range af.Decls {
 				fd, ok := d.(*ast.FuncDecl)
@@ -229,6 +287,38 @@ func genBuiltins(repo string) (string, error) {
 					}
 					return true
 				})
+				if ck.n == 0 && ck.nonlit == 0 && fd.Type.Params != nil && len(fd.Type.Params.List) >= 2 && len(fd.Type.Params.List[1].Names) == 1 {
+					// no check of its own: follow the package functions the Call hands its argument
+					// vector to, one level deep
+					argsName := fd.Type.Params.List[1].Names[0].Name
+					var found []string
+					ast.Inspect(fd.Body, func(n ast.Node) bool {
+						if _, ok := n.(*ast.FuncLit); ok {
+							return false
+						}
+						ce, ok := n.(*ast.CallExpr)
+						if !ok {
+							return true
+						}
+						fn, ok := ce.Fun.(*ast.Ident)
+						if !ok {
+							return true
+						}
+						h, ok := helpers[fn.Name]
+						if !ok || h.param >= len(ce.Args) {
+							return true
+						}
+						if a, ok := ce.Args[h.param].(*ast.Ident); ok && a.Name == argsName {
+							found = append(found, fn.Name)
+						}
+						return true
+					})
+					if len(found) == 1 {
+						h := helpers[found[0]]
+						ck = &biCheck{min: h.ck.min, max: h.ck.max, n: 1}
+						via[id.Name] = found[0]
+					}
+				}
 				checks[id.Name] = ck
 			}
 		}
@@ -303,6 +393,11 @@ func genBuiltins(repo string) (string, error) {
 					unpaired = append(unpaired, fmt.Sprintf("%s %s: creator type not found", name, where))
 				case ck == nil:
 					unpaired = append(unpaired, fmt.Sprintf("%s %s: no Call method for %s in the package", name, where, tn))
+				case ck.n == 0 && ck.nonlit == 0 && len(args) == 2 && (args[0] == "&rest" || args[0] == "&body"):
+					// no argument count check anywhere in Call and a documented list that is one &rest
+					// parameter: every count is accepted, which is what the documentation says
+					entries = append(entries, biEntry{Pkg: rel, Name: name, Type: tn, Doc: args, Min: 0, Max: -1,
+						Checks: 0, File: relf, Line: pos.Line})
 				case ck.n == 0 && ck.nonlit == 0:
 					unpaired = append(unpaired, fmt.Sprintf("%s %s: no CheckArgCount in %s.Call", name, where, tn))
 				case ck.n == 0:
@@ -310,7 +405,11 @@ func genBuiltins(repo string) (string, error) {
 				case ck.n > 1 || ck.nonlit > 0:
 					unpaired = append(unpaired, fmt.Sprintf("%s %s: %d CheckArgCount calls in %s.Call", name, where, ck.n+ck.nonlit, tn))
 				default:
-					entries = append(entries, biEntry{Pkg: rel, Name: name, Type: tn, Doc: args, Min: ck.min, Max: ck.max,
+					t := tn
+					if h := via[tn]; h != "" {
+						t = tn + " via " + h
+					}
+					entries = append(entries, biEntry{Pkg: rel, Name: name, Type: t, Doc: args, Min: ck.min, Max: ck.max,
 						Checks: ck.n, File: relf, Line: pos.Line})
 				}
 				return true
